@@ -496,3 +496,185 @@ Example order_nontrivial :
   option_map (fun sl => map p_payload (snd sl)) (orun (init 3 false) [] h) = Some [5; 6; 7]
   /\ option_map (fun sl => map p_pkid (snd sl)) (orun (init 3 false) [] h) = Some [2; 3; 1].
 Proof. vm_compute. split; reflexivity. Qed.
+
+(** ---- repeated failures: each failure is [clean] followed by the session being resumed, i.e. the
+    exact replay of what [clean] handed back through handle_outgoing_packet (ids are kept) — K29
+    is false by construction.  A replayed publish keeps its place in the send order. *)
+Inductive seg := Ops (h : list op) | Resume.
+
+Fixpoint srun (s : state) (L : list publish) (segs : list seg) : option (state * list publish) :=
+  match segs with
+  | [] => Some (s, L)
+  | Ops h :: r => match orun s L h with Some (s', L') => srun s' L' r | None => None end
+  | Resume :: r =>
+      match clean s with
+      | Ok (s1, reqs) => match run s1 (map Out reqs) with Some s2 => srun s2 L r | None => None end
+      | _ => None
+      end
+  end.
+
+(** the op history a segment list stands for *)
+Fixpoint flatten (s : state) (segs : list seg) : list op :=
+  match segs with
+  | [] => []
+  | Ops h :: r => h ++ match run s h with Some s' => flatten s' r | None => [] end
+  | Resume :: r =>
+      match clean s with
+      | Ok (s1, reqs) => Clean :: map Out reqs ++ match run s1 (map Out reqs) with Some s2 => flatten s2 r | None => [] end
+      | _ => []
+      end
+  end.
+
+Lemma ord_ids_distinct s L j1 j2 p1 p2 : Ord s L ->
+  nth_error L j1 = Some p1 -> nth_error L j2 = Some p2 -> p_pkid p1 = p_pkid p2 -> j1 = j2.
+Proof.
+  intros O H1 H2 E. destruct (o_pos s L O j1 p1 H1) as [_ [P1 _]]. destruct (o_pos s L O j2 p2 H2) as [_ [P2 _]].
+  rewrite E in P1. lia.
+Qed.
+
+(** replaying a list of publishes (with their ids) into free slots stores exactly them *)
+Lemma replay_pubs ps : forall s,
+  Inv s -> collision s = None -> (forall i, bit (outgoing_rel s) i = false) ->
+  (forall p, In p ps -> 1 <= p_pkid p /\ p_qos p <> Q0 /\ busy s (p_pkid p) = false) ->
+  (forall j1 j2 p1 p2, nth_error ps j1 = Some p1 -> nth_error ps j2 = Some p2 -> p_pkid p1 = p_pkid p2 -> j1 = j2) ->
+  (forall p, In p ps -> p_pkid p <= max_inflight s) ->
+  exists s', run s (map Out (map RPublish ps)) = Some s' /\ Inv s' /\ collision s' = None /\
+    (forall i, bit (outgoing_rel s') i = false) /\
+    max_inflight s' = max_inflight s /\ last_puback s' = last_puback s /\ last_pkid s' = last_pkid s /\
+    (forall i p, vget (outgoing_pub s') i = Some (Some p) <->
+                 (vget (outgoing_pub s) i = Some (Some p) \/ (In p ps /\ p_pkid p = i))).
+Proof.
+  induction ps as [| p ps IH]; intros s I Hc Hr Hps Hd Hle.
+  - exists s. split; [reflexivity|]. split; [exact I|]. split; [exact Hc|]. split; [exact Hr|].
+    split; [reflexivity|]. split; [reflexivity|]. split; [reflexivity|].
+    intros i p. split; [auto|]. intros [H | [Hf _]]; [exact H|destruct Hf].
+  - destruct (Hps p (or_introl eq_refl)) as [H1 [Hq Hb]].
+    assert (Hstep : exists l, vset (outgoing_pub s) (p_pkid p) (Some p) = Some l /\
+              step s (Out (RPublish p)) = Ok (push_event (set_inflight (set_pub s l) (inflight s + 1)) (EvOut (OPublish (p_pkid p))), Wrote (Some (PPublish p)))).
+    { cbn [step handle_outgoing_packet]. unfold outgoing_publish.
+      destruct (p_qos p) eqn:Eq; [congruence| |];
+        (destruct (N.eqb_spec (p_pkid p) 0); [lia|]);
+        (destruct (place_publish_eff s p I Hc H1 ltac:(congruence)) as [[Hgt _] | [[_ [Hbb _]] | [_ [_ [l [Hl He]]]]]];
+         [specialize (Hle p (or_introl eq_refl)); lia | congruence | exists l; rewrite He; split; [exact Hl|reflexivity]]). }
+    destruct Hstep as [l [Hl Hs]].
+    set (s1 := push_event (set_inflight (set_pub s l) (inflight s + 1)) (EvOut (OPublish (p_pkid p)))) in *.
+    assert (I1 : Inv s1).
+    { pose proof (step_inv s (Out (RPublish p)) I) as Hi. rewrite Hs in Hi. apply Hi. cbn [op_ok]. rewrite Hc. destruct (p_qos p); reflexivity. }
+    assert (Hbusy1 : forall i, busy s1 i = if p_pkid p =? i then true else busy s i).
+    { intros i. unfold busy, s1. sproj. rewrite (vget_vset _ _ _ i _ Hl). destruct (p_pkid p =? i); reflexivity. }
+    destruct (IH s1 I1 Hc Hr) as [s' [Hrun [I' [Hc' [Hr' [Hm [Hlp [Hlk Hsl]]]]]]]].
+    + intros q Hq'. destruct (Hps q (or_intror Hq')) as [Q1 [Qq Qb]]. split; [exact Q1|]. split; [exact Qq|].
+      rewrite Hbusy1. destruct (N.eqb_spec (p_pkid p) (p_pkid q)) as [E | E]; [|exact Qb].
+      exfalso. apply In_nth_error in Hq'. destruct Hq' as [j Hj].
+      assert (O = S j) by (apply (Hd O (S j) p q); auto). discriminate.
+    + intros j1 j2 p1 p2 H1' H2' E. assert (S j1 = S j2) by (apply (Hd (S j1) (S j2) p1 p2); auto). lia.
+    + intros q Hq'. apply (Hle q (or_intror Hq')).
+    + exists s'. cbn [map run run_with]. unfold run in Hrun. unfold next. rewrite Hs. fold s1.
+      split; [exact Hrun|]. split; [exact I'|]. split; [exact Hc'|]. split; [exact Hr'|].
+      split; [rewrite Hm; reflexivity|]. split; [rewrite Hlp; reflexivity|]. split; [rewrite Hlk; reflexivity|].
+      intros i q. rewrite Hsl. unfold s1. sproj. rewrite (vget_vset _ _ _ i _ Hl). split.
+      * intros [H | [Hin Hid]]; [|right; split; [right; exact Hin|exact Hid]].
+        destruct (N.eqb_spec (p_pkid p) i); [inversion H; subst; right; split; [left; reflexivity|reflexivity]|left; exact H].
+      * intros [H | [[<- | Hin] Hid]].
+        -- left. destruct (N.eqb_spec (p_pkid p) i) as [E | E]; [|exact H].
+           exfalso. unfold busy in Hb. rewrite E, H in Hb. discriminate.
+        -- left. rewrite Hid. rewrite N.eqb_refl. reflexivity.
+        -- right. auto.
+Qed.
+
+Lemma busy_range4 s i : Inv s -> busy s i = true -> 1 <= i <= max_inflight s.
+Proof.
+  intros I Hb. assert (Hn : i <> 0).
+  { intros ->. unfold busy in Hb. rewrite (i_rel0 s I), orb_false_r in Hb.
+    destruct (vget (outgoing_pub s) 0) as [[p|]|] eqn:E; try discriminate. destruct (i_slot s I 0 p E) as [_ [H _]]. lia. }
+  split; [lia|]. unfold busy in Hb. apply orb_true_iff in Hb. destruct Hb as [Hb | Hb].
+  - destruct (vget (outgoing_pub s) i) eqn:E; [|discriminate]. apply vget_some_lt in E. rewrite (i_lenp s I) in E.
+    apply idx_lt_len. exact E.
+  - unfold bit in Hb. destruct (vget (outgoing_rel s) i) eqn:E; [|discriminate]. apply vget_some_lt in E.
+    rewrite (i_lenr s I) in E. apply idx_lt_len. exact E.
+Qed.
+
+Theorem resume_ord s L s1 reqs s2 :
+  Ord s L -> clean s = Ok (s1, reqs) -> run s1 (map Out reqs) = Some s2 -> Ord s2 L.
+Proof.
+  intros O Hcl Hrun. pose proof (o_inv s L O) as I.
+  destruct (ord_clean s L O) as [s1' Hcl']. rewrite Hcl in Hcl'. inversion Hcl'. subst s1' reqs. clear Hcl'.
+  pose proof (clean_inv s I) as Hci. rewrite Hcl in Hci. destruct Hci as [I1 [_ Hc1]].
+  (* what clean leaves behind *)
+  assert (Hs1 : max_inflight s1 = max_inflight s /\ last_puback s1 = last_puback s /\ last_pkid s1 = last_pkid s /\
+                (forall i, busy s1 i = false) /\ (forall i, bit (outgoing_rel s1) i = false)).
+  { unfold clean in Hcl. destruct (Nat.ltb _ _); [discriminate|]. cbv zeta in Hcl. inversion Hcl. subst s1. sproj.
+    repeat split; auto.
+    - intros i. unfold busy. sproj. rewrite vget_repeat, bit_repeat_false. destruct (Nat.ltb _ _); reflexivity.
+    - intros i. apply bit_repeat_false. }
+  destruct Hs1 as [Hm1 [Hlp1 [Hlk1 [Hfree1 Hrel1]]]].
+  rewrite map_app in Hrun.
+  destruct (replay_pubs L s1 I1 Hc1 Hrel1) as [s' [Hr' [I' [Hc' [Hrl' [Hm' [Hlp' [Hlk' Hsl']]]]]]]].
+  { intros p Hp. apply In_nth_error in Hp. destruct Hp as [j Hj]. destruct (o_pos s L O j p Hj) as [Hr [_ Hv]].
+    destruct (i_slot s I _ _ Hv) as [_ [_ Hq]]. split; [lia|]. split; [exact Hq|apply Hfree1]. }
+  { intros j1 j2 p1 p2 H1 H2 E. apply (ord_ids_distinct s L j1 j2 p1 p2 O H1 H2 E). }
+  { intros p Hp. apply In_nth_error in Hp. destruct Hp as [j Hj]. destruct (o_pos s L O j p Hj) as [Hr _]. rewrite Hm1. lia. }
+  assert (Hsplit : forall a b sa, run sa (a ++ b) = match run sa a with Some sb => run sb b | None => None end).
+  { clear. induction a as [| o a IH]; intros b sa; [reflexivity|]. unfold run in *. cbn [app run_with]. destruct (next step sa o); [apply IH|reflexivity]. }
+  rewrite Hsplit, Hr' in Hrun.
+  assert (Hslots : forall i p, vget (outgoing_pub s') i = Some (Some p) <-> (In p L /\ p_pkid p = i)).
+  { intros i p. rewrite Hsl'. split; [|auto]. intros [H | H]; [|exact H]. exfalso.
+    pose proof (Hfree1 i) as Hf. unfold busy in Hf. rewrite H in Hf. discriminate. }
+  assert (Hbase : forall sx, Inv sx -> max_inflight sx = max_inflight s -> last_puback sx = last_puback s -> last_pkid sx = last_pkid s ->
+            outgoing_pub sx = outgoing_pub s' -> outgoing_rel sx = outgoing_rel s' -> collision sx = collision s -> Ord sx L).
+  { intros sx Ix Hmx Hlpx Hlkx Hpx Hrx Hcx. constructor; rewrite ?Hmx, ?Hlpx, ?Hlkx, ?Hpx, ?Hrx, ?Hcx; try apply O; auto.
+    - intros j p Hj. destruct (o_pos s L O j p Hj) as [Hr [Hp _]]. split; [exact Hr|]. split; [exact Hp|].
+      apply Hslots. split; [eapply nth_error_In; eauto|reflexivity].
+    - intros i p Hi. apply Hslots in Hi. apply Hi. }
+  unfold parked in Hrun. destruct (collision s) as [q|] eqn:Ecq.
+  - (* the parked publish is handed over last, collides again with the oldest, and is parked again *)
+    cbn [map app] in Hrun. unfold run in Hrun. cbn [run_with] in Hrun. unfold next in Hrun.
+    pose proof (o_next s L O) as Hnx. rewrite Ecq in Hnx. destruct Hnx as [Hfull [Hq0 _]].
+    destruct (i_coll s I q Ecq) as [Hbq Hqq].
+    destruct L as [| p0 L0]; [cbn in Hfull; pose proof (i_max1 s I); lia|].
+    destruct (o_pos s _ O 0%nat p0 eq_refl) as [Hr0 [Hp0 _]]. cbn in Hp0.
+    pose proof (busy_range4 s _ I Hbq) as Hqr.
+    assert (Eid : p_pkid q = p_pkid p0).
+    { apply (pos_inj (last_puback s) (max_inflight s)); try lia. apply (i_lpa s I). }
+    assert (Hbusy' : busy s' (p_pkid q) = true).
+    { unfold busy. rewrite (proj2 (Hslots (p_pkid q) p0)); [reflexivity|]. split; [left; reflexivity|congruence]. }
+    cbn [step handle_outgoing_packet] in Hrun. unfold outgoing_publish in Hrun.
+    assert (Hpp : place_publish s' q = Ok (push_event (set_collision s' (Some q)) (EvOut (OAwaitAck (p_pkid q))), None)).
+    { destruct (place_publish_eff s' q I' Hc') as [[Hgt _] | [[_ [_ He]] | [_ [Hbf _]]]]; try lia; try congruence.
+      all: try (rewrite Hm', Hm1 in Hgt; lia). }
+    destruct (p_qos q) eqn:Eqq; [congruence| |];
+      (destruct (N.eqb_spec (p_pkid q) 0); [lia|]); rewrite Hpp in Hrun; cbn [bind] in Hrun; inversion Hrun; subst s2;
+      (apply Hbase; sproj; auto; [apply inv_push, inv_set_collision; auto; rewrite Eqq; discriminate | congruence | congruence | congruence]).
+  - cbn [map app] in Hrun. unfold run in Hrun. cbn [run_with] in Hrun. inversion Hrun. subst s2.
+    apply Hbase; auto; congruence.
+Qed.
+
+Theorem clean_in_send_order_repeated max manual segs s L :
+  1 <= max -> max <= 65535 ->
+  srun (init max manual) [] segs = Some (s, L) ->
+  exists s', clean s = Ok (s', map RPublish L ++ parked s).
+Proof.
+  intros H1 H2 Hr. apply ord_clean.
+  assert (G : forall segs s0 L0, Ord s0 L0 -> srun s0 L0 segs = Some (s, L) -> Ord s L).
+  { clear. induction segs as [| sg segs IH]; intros s0 L0 O Hr; cbn [srun] in Hr.
+    - inversion Hr. subst. exact O.
+    - destruct sg as [h|].
+      + destruct (orun s0 L0 h) as [[s1 L1]|] eqn:Eo; [|discriminate]. eapply IH; [|exact Hr].
+        clear Hr IH. revert s0 L0 O Eo. induction h as [| o h IHh]; intros s0 L0 O Eo; cbn [orun] in Eo.
+        * inversion Eo. subst. exact O.
+        * destruct (ostep s0 L0 o) as [[sa La]|] eqn:Es; [|discriminate]. eapply IHh; [|exact Eo]. eapply ostep_ord; eauto.
+      + destruct (clean s0) as [[s1 reqs] | e | t] eqn:Ec; try discriminate.
+        destruct (run s1 (map Out reqs)) as [s2|] eqn:Er; [|discriminate].
+        eapply IH; [|exact Hr]. eapply resume_ord; eauto. }
+  eapply G; [|exact Hr]. apply ord_init; assumption.
+Qed.
+
+(** non-vacuity: the history of the seeded change — ids wrap, failure, full replay, second failure
+    before any PUBACK: the second clean() still returns the send order c(3), d(1), e(2) *)
+Example order_repeated_nontrivial :
+  let pubq tag := Out (RPublish (mkPub Q1 0 tag tag)) in
+  let segs := [Ops [pubq 1; pubq 2; pubq 3; Inc (PPubAck 1); Inc (PPubAck 2); pubq 4; pubq 5]; Resume; Resume; Ops [Inc (PPubAck 3)]; Resume] in
+  option_map (fun sl => map p_pkid (snd sl)) (srun (init 3 false) [] segs) = Some [1; 2]
+  /\ option_map (fun sl => map p_payload (snd sl)) (srun (init 3 false) [] segs) = Some [4; 5]
+  /\ k29 3 false (flatten (init 3 false) segs) = false /\ k30 (flatten (init 3 false) segs) = false.
+Proof. vm_compute. repeat split. Qed.
